@@ -936,7 +936,7 @@ class Explorer:
         `models` different models of the path condition), to the harness's replay on the real code.  A replay that shows a violation
         is a solver-produced, reproduced counterexample; anything else leaves the obligation inconclusive."""
         fb = self.fallback
-        if fb is None or getattr(self, 'n_candidates', 0) >= 12:
+        if fb is None or getattr(self, 'n_candidates', 0) >= 20:
             return
         replay, key, what = fb
         ints = [v for _, v in self.named if z3.is_int(v)]
@@ -975,11 +975,30 @@ class Explorer:
                 return emit()
             finally:
                 self.solver.pop()
+        def scrambled(mul=7, add=3):
+            """a model in which the declared inputs take spread-out, mutually different values (all-equal digits hide order-dependent faults)"""
+            self.solver.push()
+            try:
+                for i, v in enumerate(ints[:40]):
+                    b = BOUNDS.get(str(v))
+                    if not b:
+                        continue
+                    val = b[0] + (mul * i * i + add * i + add) % (b[1] - b[0] + 1)
+                    try:
+                        if self._check(v == val):
+                            self.solver.add(v == val)
+                    except Inconclusive:
+                        break
+                return emit()
+            finally:
+                self.solver.pop()
         try:
             if not emit() or not callable(replay):
                 return
             extreme(False)
             extreme(True)
+            scrambled()
+            scrambled(3, 5)
             if models > 3:
                 m = self.model
                 diff = [v != m.eval(v, model_completion=True) for v in ints]
